@@ -67,6 +67,17 @@ class SaveLoad(Suite):
             fn = os.path.join(tmp, "s." + case["fmt"])
             with warnings.catch_warnings():
                 warnings.simplefilter("ignore")
+                if case.get("rewrite", case["seed"] % 2 == 0):
+                    # the file existed before with other content and was read then: what is read now is what was saved last
+                    other = (r.randint(0, 200, size=[shape[1], shape[2], shape[0] + 1, 1]) % 251).astype(np.uint8)
+                    if case["fmt"] == "tif":
+                        save_tiff(other, fn)
+                    elif case["fmt"] == "nrrd":
+                        nrrd.write(fn, other)
+                    else:
+                        np.save(fn, other)
+                    fn_eff = fn if case["fmt"] != "npy" or fn.endswith(".npy") else fn + ".npy"
+                    np.asarray(read_imgs(fn_eff).get_full()); np.asarray(read_imgs(fn_eff, dtype=np.uint8).get_full())
                 if case["fmt"] == "tif":
                     kw = {"metadata": {"unit": "um", "note": "c20"}} if case.get("opts") == "metadata" else ({"compression": False} if case.get("opts") == "nocompress" else {})
                     save_tiff(data.copy(), fn, dtype=None if case["save_dtype"] is None else np.dtype(case["save_dtype"]).type, **kw)
